@@ -1,0 +1,6 @@
+//go:build !verif
+// +build !verif
+
+package rpc
+
+func verifPoint(point string) {}
